@@ -29,9 +29,9 @@ ASSUMPTIONS = ["order of keys newly added by the right-hand document is not spec
                "shapes the policy documentation does not mention (set<->list, hash into a root list, duplicates inside the "
                "right-hand list under unique, python-equal scalars of different type) are unspecified for the result",
                "merge_with deletes comments of the right-hand document and may share right-hand nodes: R is not judged"]
-REACH = [("yamlpath/merger/merger.py", 106, 500, "Merger._merge_dicts/_merge_lists/_merge_sets"),
-         ("yamlpath/merger/merger.py", 614, 900, "Merger._insert_* / merge_with"),
-         ("yamlpath/merger/mergerconfig.py", 57, 201, "MergerConfig modes")]
+REACH = [("yamlpath/merger/merger.py", "_merge_dicts,_merge_lists,_merge_simple_lists,_merge_arrays_of_hashes,_merge_sets", "Merger._merge_*"),
+         ("yamlpath/merger/merger.py", "_insert_dict,_insert_list,_insert_set,_insert_scalar,merge_with", "Merger._insert_* / merge_with"),
+         ("yamlpath/merger/mergerconfig.py", "hash_merge_mode,array_merge_mode,aoh_merge_mode,set_merge_mode,aoh_merge_key,_prepare_user_rules", "MergerConfig modes")]
 SIZES = {"quick": 200000, "thorough": 4000000}
 REQUIRED_COUNTERS = ["model_decided", "documented_error_cases", "rules_cases", "ini_cases"]
 HASHES, ARRAYS, AOH, SETS = ["deep", "left", "right"], ["all", "left", "right", "unique"], \
